@@ -762,6 +762,8 @@ pub fn run(ctx: &Ctx) -> Outcome {
     // schedule exploration: local close races the peer's close (real client <-> real listener)
     let sched1 = schedule_race(ctx, deadline, &mut out);
     let sched2 = schedule_close_vs_queued_ends(ctx, deadline, &mut out);
+    let bp = backpressure_flush(&mut out);
+    out.set("backpressure_flush_scenarios", bp);
     let sched = (sched1.0 + sched2.0, sched1.1 + sched2.1, format!("{}; {}", sched1.2, sched2.2));
     out.set("states", states.max(1));
     out.set("transitions", transitions.max(1) + sched.1);
@@ -776,6 +778,95 @@ pub fn run(ctx: &Ctx) -> Outcome {
     out.assume("the scripted peer reacts at quiescent points only (peer frames are never interleaved inside a library step) except in the schedule exploration, which runs two real endpoints");
     out.assume("'illegal frame' is taken to be a frame on a channel the endpoint never mapped (begin naming an unknown remote-channel, end or flow on an unmapped channel) and a frame before open");
     out
+}
+
+
+/// The transport takes no bytes, `n` sessions are ended (their end frames queue up behind the stuck write), then
+/// the peer closes and the transport takes bytes again: every end frame that was queued when the peer's close
+/// was handled has to be on the wire before the library's answering close.
+fn backpressure_flush(out: &mut Outcome) -> u64 {
+    let mut runs = 0;
+    for n in [1usize, 2, 4] {
+        for peer_err in [false, true] {
+            let scen: Scenario<(Vec<String>, Vec<(String, String)>)> = Arc::new(move || {
+                Box::pin(async move {
+                    let (pipe, a, _b) = Pipe::new();
+                    let mut auto = Auto::default();
+                    auto.max_frame_size = 4096;
+                    let mut peer = Peer::new(pipe.clone(), 1, auto);
+                    let h = Duration::from_secs(5);
+                    let mut fails = vec![];
+                    let Some(Ok(mut conn)) = drive(&mut peer, Connection::builder().container_id("lib").open_with_stream(a), h).await else {
+                        return (vec![], vec![("machinery".to_string(), "open failed".to_string())]);
+                    };
+                    let mut sessions = vec![];
+                    for _ in 0..n {
+                        match drive(&mut peer, Session::begin(&mut conn), h).await {
+                            Some(Ok(s)) => sessions.push(s),
+                            _ => return (vec![], vec![("machinery".to_string(), "begin failed".to_string())]),
+                        }
+                    }
+                    settle(&mut peer, 2).await;
+                    pipe.stall_writes(0, true);
+                    // end every session: each call queues its end frame and then waits for the peer's answer
+                    let mut tasks = vec![];
+                    for mut s in sessions {
+                        tasks.push(tokio::spawn(async move {
+                            let _ = s.end().await;
+                        }));
+                    }
+                    tokio::time::sleep(Duration::from_millis(5)).await;
+                    // the peer closes while those frames are queued; then the transport takes bytes again
+                    let err = if peer_err { Some(vlib::peer::amqp_error(definitions::AmqpError::InternalError, "peer closes")) } else { None };
+                    peer.send(0, Performative::Close(Close { error: err }));
+                    tokio::time::sleep(Duration::from_millis(5)).await;
+                    pipe.stall_writes(0, false);
+                    settle(&mut peer, 4).await;
+                    let _ = drive(&mut peer, conn.on_close(), h).await;
+                    settle(&mut peer, 2).await;
+                    for t in tasks {
+                        t.abort();
+                    }
+                    let ends_before_close = {
+                        let mut k = 0;
+                        for w in peer.trace.iter().filter(|w| w.dir == Dirn::FromLib) {
+                            match w.perf() {
+                                Some(Performative::End(_)) => k += 1,
+                                Some(Performative::Close(_)) => break,
+                                _ => {}
+                            }
+                        }
+                        k
+                    };
+                    if lib_closed(&peer.trace).is_none() {
+                        fails.push(("backpressure: peer-close-unanswered".to_string(), "the peer's close was never answered".to_string()));
+                    } else if ends_before_close < n {
+                        fails.push((
+                            "backpressure: queued-frames-dropped-at-peer-close".to_string(),
+                            format!("{n} sessions had queued their end frame behind a stalled transport when the peer's close arrived; only {ends_before_close} end frame(s) were written before the library's close"),
+                        ));
+                    }
+                    fails.extend(judge_trace(&peer.trace, false).into_iter().map(|(s, d)| (format!("backpressure: {s}"), d)));
+                    (trace_to_strings(&peer.trace), fails)
+                })
+            });
+            let ex = run_exec(vec![], &RunCfg::none(), &scen);
+            runs += 1;
+            match ex.out {
+                Some((trace, fails)) => {
+                    for (s, d) in fails {
+                        if s == "machinery" {
+                            out.machinery_errors.push(d);
+                        } else {
+                            out.violation(s, d, json!({"kind": "backpressure", "sessions": n, "peer_error": peer_err, "trace": trace}));
+                        }
+                    }
+                }
+                None => out.machinery_errors.push(format!("backpressure scenario died: {:?}", ex.panics)),
+            }
+        }
+    }
+    runs
 }
 
 /// real client against real listener: both close at the same time, all schedules within the bound
